@@ -107,6 +107,15 @@ func suiteBloom(c *Ctx) {
 	for i := 0; i < 6; i++ {
 		bloomCase(c, bloomCfg{kind: "withbitset", redis: false, words: 1 + i%3, numHashes: uint(1 + 2*i)}, i)
 	}
+	// error budgets so generous that the derived number of hash functions is clamped (and error
+	// rate 1: zero bits), on Redis with handles attached from the metadata key
+	for i, np := range [][2]float64{{50, 0.9}, {100, 0.7}, {10, 1.0}, {7, 0.999}, {3, 0.62}} {
+		bloomCase(c, bloomCfg{kind: "params", redis: true, numItems: uint(np[0]), errorRate: np[1]}, 1+i)
+		if np[1] < 1 {
+			// (the in-memory constructor rejects error rate 1 with an error: nothing to check)
+			bloomCase(c, bloomCfg{kind: "params", redis: false, numItems: uint(np[0]), errorRate: np[1]}, 1+i)
+		}
+	}
 	bloomHuge(c, []string{"C01"})
 	bloomConcurrent(c)
 	// small-scope exhaustive: all histories of length <= L over 3 elements for sizes 1..6
